@@ -214,7 +214,7 @@ class SourceFile:
             if toks[i].kind == "id" and toks[i].text == kind and toks[i + 1].text == name and depth[i] == 0:
                 # make sure it's a definition (next is `{`, `<`, `(`, `;`, `=` or `where`)
                 nxt = toks[i + 2].text if i + 2 < len(toks) else ""
-                if nxt in ("{", "<", "(", ";", "=", "where"):
+                if nxt in ("{", "<", "(", ";", "=", "where", ":"):
                     hits.append(i)
         if len(hits) != 1:
             raise KeyError("%s: expected exactly one `%s %s`, found %d" % (self.path, kind, name, len(hits)))
